@@ -973,7 +973,7 @@ def oracle_conn(h):
             st = frames[-1][1]["state"]
             if st["sync_finished"] - stretch_start_sf != 1:
                 heavy = next((e for e in h.events if e["ev"] == "heavy_world"), None)
-                if (p != 0 and heavy and heavy["bytes"] > 5 * 1024 * 1024 and st["sync_finished"] - stretch_start_sf == 0
+                if (p != 0 and heavy and heavy["bytes"] >= 5 * 1024 * 1024 and st["sync_finished"] - stretch_start_sf == 0
                         and st.get("client_connected") is False and not st.get("ents")):
                     # D20: renet's reliable channel keeps at most 5 MiB of unacknowledged bytes per client; the whole snapshot is
                     # queued in one call, the channel reports exhaustion and renet disconnects the joiner
